@@ -290,6 +290,22 @@ pub fn history(w: &Weights, max_ops: usize) -> BoxedStrategy<Vec<Op>> {
     vec(op(w), 0..=max_ops).boxed()
 }
 
+pub fn history_min(w: &Weights, min_ops: usize, max_ops: usize) -> BoxedStrategy<Vec<Op>> {
+    vec(op(w), min_ops..=max_ops).boxed()
+}
+
+/// A case whose history has at least `min_ops` operations (for checks that need populated maps).
+pub fn case_min(ptype: &'static str, w: &Weights, min_uni: usize, max_uni: usize, min_ops: usize, max_ops: usize) -> BoxedStrategy<Case> {
+    (usteps(min_uni, max_uni), history_min(w, min_ops, max_ops))
+        .prop_map(move |(usteps, ops)| Case {
+            ptype: ptype.to_string(),
+            usteps,
+            ops,
+            extra: vec![],
+        })
+        .boxed()
+}
+
 /// A full case for a fixed prefix type.
 pub fn case(ptype: &'static str, w: &Weights, max_uni: usize, max_ops: usize, n_extra: usize) -> BoxedStrategy<Case> {
     (usteps(2, max_uni), history(w, max_ops), vec(any::<u64>(), n_extra..=n_extra))
